@@ -46,7 +46,26 @@ def tasks(tier, seed):
     shards = 16 if tier == "quick" else 64
     for i in range(shards):
         t.append((MOD, "hyp", (n // shards, seed * 1_000_003 + i, tier)))
+    t.append((MOD, "floor", ()))
     return t
+
+
+FLOOR_CASES = [
+    {"expr": "lt-floor-and-any", "text": "<0.dev0"},
+    {"expr": "ge-floor", "text": ">=0.dev0"},
+    {"expr": "not-lt-floor", "text": "<0.dev0"},
+]
+
+
+def is_known(kind, case):
+    # S8: 0.dev0 is the least PEP 440 version; nothing lies below it, but an unbounded-below range is never empty
+    return "S8" if kind == "floor" else None
+
+
+def floor(acc):
+    mod = sys.modules[MOD]
+    for c in FLOOR_CASES:
+        harness.process(mod, acc, "floor", c, "floor-of-the-order", isolate=False)
 
 
 def _check_result(acc, kind, case, op, r, exp_mask, full, objs, pts_set, pts, salt):
@@ -141,6 +160,22 @@ def _collect(tree, steps, leaves):
 
 
 def evaluate(kind, case, acc):
+    if kind == "floor":
+        from dep_logic.specifiers import parse_version_specifier as P
+
+        s = P(case["text"])
+        if case["expr"] == "lt-floor-and-any":
+            r = s & P("")
+            if not r.is_empty():
+                acc.fail(kind, "floor:is_empty", case, expected="no version is below 0.dev0: empty", got={"is_empty": False, "result": describe(r)})
+        elif case["expr"] == "ge-floor":
+            if not s.is_any():
+                acc.fail(kind, "floor:is_any", case, expected="every version is >= 0.dev0: universal", got={"is_any": False, "result": describe(s)})
+        else:
+            r = ~s
+            if not (r == P("") and r.is_any()):
+                acc.fail(kind, "floor:complement", case, expected="universal", got=describe(r))
+        return
     leaves = []
     if kind == "cellpair":
         pts = [Version(x) for x in case["pts"]]
